@@ -211,6 +211,15 @@ CLAIMS = {
             "writing their output",
             "per-binary agreement with abidiff and the matching of binaries are runtime",
             "§3 R-STATUS S5, R-ACCUM; §4 C30"),
+    "C11": ("sibling (mirror) agreement between the deletion half and the addition half of each region of "
+            "corpus_diff::priv::ensure_lookup_tables_populated: ordered symbol-lookup / version events from the AST, "
+            "compared after exchanging first_ <-> second_",
+            "both halves look the interface's symbol up in the other corpus; any lookup / version treatment present in "
+            "one half only is reported (today: the default-version rule of the addition half, four recorded findings "
+            "replayed with versioned vs unversioned exports)",
+            "the edit scripts and the matching of changed interfaces (runtime); the same set of changed interfaces in "
+            "both directions",
+            "§8.6 (added after the design: C11 was first declared not applicable)"),
     "C22": ("who-may-write rule over the whole program + must-pass-through dataflow (evidence of a match) at every "
             "write of the suppression categories",
             "a diff node enters SUPPRESSED_CATEGORY / PRIVATE_TYPE_CATEGORY only in suppression_categorization_visitor, "
@@ -239,7 +248,6 @@ CLAIMS = {
 }
 
 NOT_APPLICABLE = {
-    "C11": "relation between two runs on swapped inputs through symbol re-lookup over runtime symbol sets; no structural clause implies it",
     "C13": "equality of two differently computed runtime counters (leaf vs default reporter); the shared INCOMPAT bit is decided under C08",
     "C15": "values decoded from DWARF by elfutils and interpreted by the reader; the oracle is a compiler, nothing static bounds it",
     "C16": "values decoded from DWARF (signatures) against source; runtime oracle",
